@@ -9,6 +9,7 @@
 import Gen.SrcC20
 import CRProofs.ArcLen
 import CRProofs.Route
+import Mathlib.Tactic.Tauto
 set_option linter.unusedTactic false
 set_option linter.unreachableTactic false
 set_option linter.unusedSimpArgs false
@@ -233,4 +234,121 @@ theorem tie_interp (cv rv lv : List Pt) (ℓ : List Rat) (s : Rat) :
         · right; intro h2; exact ha ⟨h1, h2⟩
         · left; exact h1
       simp [this, ha, Except.map]
+/-! ### merge_lanelets -/
+
+theorem sliceFrom_01 {α : Type} (xs : List α) (b : Bool) :
+    sliceFrom xs (if b = true then (1 : Int) else 0) = xs.drop (if b = true then 1 else 0) := by
+  cases b <;> simp [sliceFrom]
+
+macro "merge_fin" p:term "," s:term : tactic => `(tactic| (
+  cases pyGet? (Lanelet.left $p) (-1) <;> cases pyGet? (Lanelet.left $s) 0 <;> try rfl
+  simp only [sliceFrom_01]
+  split <;> simp_all))
+
+theorem tie_merge (l1 l2 : Lanelet) : Gen.Lanelet_merge_lanelets l1 l2 = mergeLanelets l1 l2 := by
+  unfold Gen.Lanelet_merge_lanelets mergeLanelets
+  simp only [CR.Py.getItem, CR.Py.assert, newLanelet, bind, Except.bind, pure, Except.pure, if_true]
+  by_cases hl : (l1.id ∈ l2.succ ∨ l2.id ∈ l1.succ ∨ l1.id ∈ l2.pred ∨ l2.id ∈ l1.pred)
+  · have hl' : ((l1.id ∈ l2.succ ∨ l2.id ∈ l1.succ) ∨ l1.id ∈ l2.pred) ∨ l2.id ∈ l1.pred := by tauto
+    by_cases hd : (l1.id ∈ l2.pred ∨ l2.id ∈ l1.succ)
+    · simp only [hl, hl', hd, Bool.or_eq_true, decide_eq_true_eq, if_true, not_true, if_false]
+      merge_fin l1, l2
+    · simp only [hl, hl', hd, Bool.or_eq_true, decide_eq_true_eq, if_true, not_true, if_false]
+      merge_fin l2, l1
+  · have hl' : ¬ (((l1.id ∈ l2.succ ∨ l2.id ∈ l1.succ) ∨ l1.id ∈ l2.pred) ∨ l2.id ∈ l1.pred) := by tauto
+    simp [hl, hl']
+
+/-! ### _compute_polyline_cumsum_dist, distance, inner_distance, cache resets -/
+
+/-- the length function the translated code uses: the norm of the difference vector -/
+def normLen (norm : Pt → Rat) (a b : Pt) : Rat := norm (b.1 - a.1, b.2 - a.2)
+
+theorem rowNorms_diff (norm : Pt → Rat) : ∀ c : List Pt, rowNorms norm (diff c) = segLens (normLen norm) c
+  | [] => rfl
+  | [_] => rfl
+  | a :: b :: t => by
+    simp only [diff, rowNorms, List.map_cons, segLens, normLen]
+    exact congrArg _ (rowNorms_diff norm (b :: t))
+
+theorem segLens_length (len : Pt → Pt → Rat) : ∀ c : List Pt, c ≠ [] → (segLens len c).length + 1 = c.length
+  | [], h => absurd rfl h
+  | [_], _ => rfl
+  | a :: b :: t, _ => by
+    simp only [segLens, List.length_cons]
+    have := segLens_length len (b :: t) (by simp)
+    simp only [List.length_cons] at this
+    omega
+
+theorem amin_one_col : ∀ (col : List Rat) (n : Nat), col.length = n →
+    aminRows (setCol (List.replicate n [0]) 0 col) = col
+  | [], n, h => by subst h; rfl
+  | x :: xs, n, h => by
+    subst h
+    simp only [List.length_cons, List.replicate_succ, setCol, List.zipWith_cons_cons, aminRows, List.map_cons]
+    have := amin_one_col xs xs.length rfl
+    simp only [setCol, aminRows] at this
+    rw [this]
+    rfl
+
+theorem amin_two_cols : ∀ (cl cr : List Rat) (n : Nat), cl.length = n → cr.length = n →
+    aminRows (setCol (setCol (List.replicate n [0, 0]) 0 cl) 1 cr)
+      = List.zipWith (fun a b => if a ≤ b then a else b) cl cr
+  | [], [], n, h, _ => by subst h; rfl
+  | [], _ :: _, n, h, h' => by subst h; simp at h'
+  | _ :: _, [], n, h, h' => by subst h; simp at h'
+  | x :: xs, y :: ys, n, h, h' => by
+    subst h
+    have hl : ys.length = xs.length := by simpa using h'
+    have := amin_two_cols xs ys xs.length rfl hl
+    simp only [setCol, aminRows] at this
+    simp only [List.length_cons, List.replicate_succ, setCol, List.zipWith_cons_cons, aminRows, List.map_cons, this]
+    rfl
+
+/-- `_compute_polyline_cumsum_dist([center])` of the current source is the model's `cumDist` of the segment lengths -/
+theorem tie_cumsum_center (norm : Pt → Rat) (c : List Pt) (hc : c ≠ []) :
+    Gen.Lanelet_compute_polyline_cumsum_dist norm [c] = cumDist (segLens (normLen norm) c) := by
+  unfold Gen.Lanelet_compute_polyline_cumsum_dist
+  simp only [List.map_cons, List.map_nil, List.nil_append, List.cons_append, List.append_nil, List.singleton_append, Int.zero_add, item, pyGet?, enumerate, enumerateFrom, List.foldl_cons, List.foldl_nil,
+    Gen.Lanelet_compute_polyline_cumsum_dist.for1, Gen.Lanelet_compute_polyline_cumsum_dist.for2, empty, append, rowNorms_diff, CR.PyC20.cumsum, cumDist]
+  have hlen : (0 :: segLens (normLen norm) c).length = c.length := by
+    simpa using segLens_length (normLen norm) c hc
+  have := amin_one_col (0 :: segLens (normLen norm) c) c.length hlen
+  simp_all
+
+/-- `_compute_polyline_cumsum_dist([left, right])` (inner_distance) of the current source is the model's `cumDistMin` -/
+theorem tie_cumsum_inner (norm : Pt → Rat) (l r : List Pt) (hl : l ≠ []) (hlr : l.length = r.length) :
+    Gen.Lanelet_compute_polyline_cumsum_dist norm [l, r] = cumDistMin (segLens (normLen norm) l) (segLens (normLen norm) r) := by
+  unfold Gen.Lanelet_compute_polyline_cumsum_dist
+  simp only [List.map_cons, List.map_nil, List.nil_append, List.cons_append, List.append_nil, List.singleton_append, Int.zero_add, item, pyGet?, enumerate, enumerateFrom, List.foldl_cons, List.foldl_nil,
+    Gen.Lanelet_compute_polyline_cumsum_dist.for1, Gen.Lanelet_compute_polyline_cumsum_dist.for2, empty, append,
+    rowNorms_diff, CR.PyC20.cumsum, cumDistMin]
+  have hr : r ≠ [] := by intro h; subst h; simp at hlr; exact hl hlr
+  have h1 : (0 :: segLens (normLen norm) l).length = l.length := by
+    simpa using segLens_length (normLen norm) l hl
+  have h2 : (0 :: segLens (normLen norm) r).length = l.length := by
+    rw [hlr]; simpa using segLens_length (normLen norm) r hr
+  have := amin_two_cols (0 :: segLens (normLen norm) l) (0 :: segLens (normLen norm) r) l.length h1 h2
+  simp_all
+
+/-- the `distance` getter of the current source: an existing cache is handed out, an empty one is filled with `cumDist` -/
+theorem tie_distance (norm : Pt → Rat) (cache : Option (List Rat)) (c : List Pt) (hc : c ≠ []) :
+    Gen.Lanelet_distance norm cache c = distanceGet cache (segLens (normLen norm) c) := by
+  unfold Gen.Lanelet_distance distanceGet
+  cases cache with
+  | none => simp [tie_cumsum_center norm c hc]
+  | some d => simp
+
+/-- the `inner_distance` getter of the current source -/
+theorem tie_inner_distance (norm : Pt → Rat) (cache : Option (List Rat)) (l r : List Pt) (hl : l ≠ []) (hlr : l.length = r.length) :
+    Gen.Lanelet_inner_distance norm cache l r
+      = innerDistanceGet cache (segLens (normLen norm) l) (segLens (normLen norm) r) := by
+  unfold Gen.Lanelet_inner_distance innerDistanceGet
+  cases cache with
+  | none => simp [tie_cumsum_inner norm l r hl hlr]
+  | some d => simp
+
+/-- STRUCTURAL tie: the table (method, vertex attribute assigned, dependent distance cache reset afterwards) extracted from the
+    syntax tree of class `Lanelet` is the model's table.  A finite table compared completely by `decide` is a proof for that table. -/
+theorem tie_vertex_writers : Gen.Lanelet_vertex_writers = vertexWriters := by decide
+
 end CR.Arc
